@@ -46,7 +46,8 @@ def run(tier: str) -> int:
             items.append(dict(it, qs=deep))
     # the repository's example catalogue: single-variable X, Y, Z queries on its 5-8 node graphs (IDGenFile.tla)
     exg = ex.id_items(wd, "idc")
-    items += ex.pick([dict(it, own=[]) for it in exg["items"] if len(it["g"]["n"]) <= 6], 8 if tier == "quick" else 60, rng, "EX-")
+    items += [dict(it, orders=1) for it in ex.pick([dict(it, own=[]) for it in exg["items"] if len(it["g"]["n"]) <= (5 if tier == "quick" else 6)],
+                                                   8 if tier == "quick" else 60, rng, "EX-")]
     groups = ic.run_y0(wd, items, 2, True, "c03")
     vs, st, by_id = ic.judge(wd, groups, seeds=(1, 2) if tier == "quick" else (1, 2, 3))
     ic.report(out, vs, by_id, ic.index(items), skip_clauses={"vocabulary"})
